@@ -1,37 +1,38 @@
 import Pysmi.Generated.Skeletons
 /-!
-# Pins (C10): the control skeletons the hand-written models were written against
+# Pins (C10): the control skeletons the hand-written models and oracles were written against
 
-`Generated/Skeletons.lean` is rewritten from the source on every run (calls other than logging and pure builtins, raises with
-their exception class, returns, loops, branches, handlers - in source order).  Each hand-written model follows one of these
-methods; the literal below is the skeleton it was written against.  A structural change of the method breaks its pin - which
-is not by itself a violation: the check then searches model and code for a failing input and reports what it finds.
+`Generated/Skeletons.lean` is rewritten from the source on every run (calls other than logging, string plumbing and pure
+builtins, raises with their exception class, returns, loops, branches, handlers - in source order; for the scripts also the
+exit status of every `sys.exit`).  A structural change of one of these methods breaks its pin - which is not by itself a
+violation: the check then searches model and code for a failing input and reports what it finds.
+(Literals written by harness/tools/repin.py when the models were last brought in line with the source.)
 -/
 namespace Pysmi.Pins.SkelC10
 open Pysmi.Generated.Skeletons
 
 /-- AnyFileSearcher.fileExists (pysmi/searcher/anyfile.py) -/
 theorem pin_anyFileSearcher : anyFileSearcher = [
-    "if", "return", "call:os.path.join", "loop", "if", "call:os.path.exists", "call:os.path.isfile", "call:os.stat",
-    "except:OSError", "raise:error.PySmiSearcherError", "call:error.PySmiSearcherError", "call:sys.exc_info",
-    "call:time.strftime", "call:time.gmtime", "if", "raise:error.PySmiFileNotModifiedError",
-    "call:error.PySmiFileNotModifiedError", "raise:error.PySmiFileNotFoundError", "call:error.PySmiFileNotFoundError"] := by decide
-
-/-- PyFileSearcher.fileExists (pysmi/searcher/pyfile.py) -/
-theorem pin_pyFileSearcher : pyFileSearcher = [
-    "if", "return", "call:os.path.join", "loop", "if", "call:os.path.exists", "call:os.path.isfile", "call:open",
-    "call:fp.read", "call:fp.close", "except:IOError", "raise:error.PySmiSearcherError",
-    "call:error.PySmiSearcherError", "call:sys.exc_info", "if", "if", "if", "call:struct.unpack",
-    "call:struct.unpack", "call:time.strftime", "call:time.gmtime", "if", "raise:error.PySmiFileNotModifiedError",
-    "call:error.PySmiFileNotModifiedError", "raise:error.PySmiFileNotFoundError", "call:error.PySmiFileNotFoundError",
-    "loop", "if", "call:os.path.exists", "call:os.path.isfile", "call:os.stat", "except:OSError",
+    "if", "return", "loop", "if", "call:os.path.exists", "call:os.path.isfile", "call:os.stat", "except:OSError",
     "raise:error.PySmiSearcherError", "call:error.PySmiSearcherError", "call:sys.exc_info", "call:time.strftime",
     "call:time.gmtime", "if", "raise:error.PySmiFileNotModifiedError", "call:error.PySmiFileNotModifiedError",
     "raise:error.PySmiFileNotFoundError", "call:error.PySmiFileNotFoundError"] := by decide
 
+/-- PyFileSearcher.fileExists (pysmi/searcher/pyfile.py) -/
+theorem pin_pyFileSearcher : pyFileSearcher = [
+    "if", "return", "loop", "if", "call:os.path.exists", "call:os.path.isfile", "call:open", "call:fp.read",
+    "call:fp.close", "except:IOError", "raise:error.PySmiSearcherError", "call:error.PySmiSearcherError",
+    "call:sys.exc_info", "if", "if", "if", "call:struct.unpack", "call:struct.unpack", "call:time.strftime",
+    "call:time.gmtime", "if", "raise:error.PySmiFileNotModifiedError", "call:error.PySmiFileNotModifiedError",
+    "raise:error.PySmiFileNotFoundError", "call:error.PySmiFileNotFoundError", "loop", "if", "call:os.path.exists",
+    "call:os.path.isfile", "call:os.stat", "except:OSError", "raise:error.PySmiSearcherError",
+    "call:error.PySmiSearcherError", "call:sys.exc_info", "call:time.strftime", "call:time.gmtime", "if",
+    "raise:error.PySmiFileNotModifiedError", "call:error.PySmiFileNotModifiedError",
+    "raise:error.PySmiFileNotFoundError", "call:error.PySmiFileNotFoundError"] := by decide
+
 /-- StubSearcher.fileExists (pysmi/searcher/stub.py) -/
 theorem pin_stubSearcher : stubSearcher = [
-    "if", "raise:error.PySmiFileNotModifiedError", "call:error.PySmiFileNotModifiedError", "call:', '.join",
-    "raise:error.PySmiFileNotFoundError", "call:error.PySmiFileNotFoundError", "call:', '.join"] := by decide
+    "if", "raise:error.PySmiFileNotModifiedError", "call:error.PySmiFileNotModifiedError",
+    "raise:error.PySmiFileNotFoundError", "call:error.PySmiFileNotFoundError"] := by decide
 
 end Pysmi.Pins.SkelC10
